@@ -245,7 +245,9 @@ class HTTPStream:
     async def _send_closed(self) -> None:
         await self.send(EndBody(stream_id=self.stream_id))
         self.state = ASGIHTTPState.CLOSED
-        await self.config.log.access(self.scope, self.response, time() - self.start_time)
+        if not self.closed:
+            # Otherwise the request was logged when the stream closed
+            await self.config.log.access(self.scope, self.response, time() - self.start_time)
         await self.send(StreamClosed(stream_id=self.stream_id))
 
     async def _send_error_response(self, status_code: int) -> None:
